@@ -80,8 +80,35 @@ impl<'a> G<'a> {
         pool.extend([cur, cur, 99, 3, 0]);
         *self.rng.pick(&pool)
     }
-    fn mig_prog(&mut self) -> Prog {
-        match self.rng.below(10) {
+    /// an admin operation that dispatches nothing further, on `tgt`
+    fn simple_admin_msg(&mut self, tgt: &str) -> Msg {
+        let cur = self.cdata(tgt).map(|d| d.code_id).unwrap_or(1);
+        match self.rng.below(5) {
+            0 | 1 => {
+                let mut pool = self.users.clone();
+                pool.extend(self.targets.clone());
+                pool.push(tgt.to_string());
+                Msg::UpdateAdmin { c: tgt.into(), a: self.rng.pick(&pool).clone() }
+            }
+            2 => Msg::ClearAdmin { c: tgt.into() },
+            _ => {
+                let new_code = self.new_code(cur);
+                Msg::Migrate { c: tgt.into(), new_code, p: leaf(&mut self.nodes, vec![Action::Q(QAct::Dump)]) }
+            }
+        }
+    }
+    /// a program whose body returns ONE admin operation (on `me` or on another contract) under any reply mode
+    fn admin_sub_prog(&mut self, me: &str) -> Prog {
+        let tgt = if self.rng.chance(1, 2) { me.to_string() } else { self.rng.pick(&self.targets).clone() };
+        let m = self.simple_admin_msg(&tgt);
+        let ro = *self.rng.pick(&[ReplyOnS::Never, ReplyOnS::Error, ReplyOnS::Always, ReplyOnS::Success]);
+        let id = 20 + self.rng.below(3);
+        with_sub(&mut self.nodes, id, ro, m)
+    }
+    fn mig_prog(&mut self, me: &str) -> Prog {
+        match self.rng.below(13) {
+            // the migrate entry point of the new code returns an admin operation: it acts as the CONTRACT
+            10..=12 => self.admin_sub_prog(me),
             0 => failing(&mut self.nodes),
             1 => malformed(&mut self.nodes),
             2 => {
@@ -96,7 +123,7 @@ impl<'a> G<'a> {
     fn admin_msg(&mut self, c: &str) -> Msg {
         let cur = self.cdata(c).map(|d| d.code_id).unwrap_or(1);
         match self.rng.below(10) {
-            0..=3 => Msg::Migrate { c: c.into(), new_code: self.new_code(cur), p: self.mig_prog() },
+            0..=3 => Msg::Migrate { c: c.into(), new_code: self.new_code(cur), p: self.mig_prog(c) },
             4..=7 => {
                 let mut pool = self.users.clone();
                 pool.extend(self.targets.clone());
@@ -126,7 +153,50 @@ impl<'a> G<'a> {
         let m = self.admin_msg(&c);
         let is_contract = self.targets.contains(&actor);
         let via_sub = is_contract || self.rng.chance(1, 6);
-        if via_sub {
+        let shape = self.rng.below(12);
+        if shape == 0 {
+            // sudo: the body of the sudo entry point of a contract returns the admin operation
+            let d = self.rng.pick(&self.dispatchers).clone();
+            let ro = *self.rng.pick(&[ReplyOnS::Never, ReplyOnS::Error, ReplyOnS::Always, ReplyOnS::Success]);
+            let m = self.simple_admin_msg(&c);
+            let p = with_sub(&mut self.nodes, 4, ro, m);
+            self.live.top(&b, TopOp::WasmSudo { c: d, p });
+        } else if shape == 1 {
+            // instantiate: a NEW contract returns the admin operation (on an existing contract, or on itself,
+            // being or not being its own admin)
+            let own = classic_address(1, reg_of(&self.live).len() as u64);
+            let tgt = if self.rng.chance(1, 2) { own.clone() } else { c.clone() };
+            let m = self.simple_admin_msg(&tgt);
+            let ro = *self.rng.pick(&[ReplyOnS::Never, ReplyOnS::Error, ReplyOnS::Always, ReplyOnS::Success]);
+            let p = with_sub(&mut self.nodes, 5, ro, m);
+            let admin = match self.rng.below(3) {
+                0 => Some(own.clone()),
+                1 => Some(actor.clone()),
+                _ => None,
+            };
+            let sender = self.rng.pick(&self.users).clone();
+            let before = reg_of(&self.live).len();
+            self.live.top(&b, TopOp::Exec { sender, m: Msg::Inst { code_id: 1, p, funds: vec![], label: "born".into(), admin, salt: None } });
+            if reg_of(&self.live).len() > before && self.targets.len() < 9 {
+                self.targets.push(own.clone());
+                self.dispatchers.push(own);
+            }
+        } else if shape == 2 {
+            // reply: a quiet sub-message (succeeding or failing) whose reply program returns the admin operation
+            let d = self.rng.pick(&self.dispatchers).clone();
+            let node = self.nodes.next();
+            let on_ok = self.admin_sub_prog(&d);
+            let on_err = self.admin_sub_prog(&d);
+            let ok = self.rng.chance(1, 2);
+            let ro = *self.rng.pick(&[ReplyOnS::Always, ReplyOnS::Always, ReplyOnS::Error, ReplyOnS::Success, ReplyOnS::Never]);
+            let p = Prog {
+                node,
+                acts: vec![Action::Write(format!("m{}", node).into_bytes(), vec![1])],
+                out: Output::Resp { attrs: vec![], events: vec![], data: None, subs: vec![Sub { id: 9, payload: vec![9], ro, m: Box::new(Msg::Custom { ok, tag: 12 }), on_ok, on_err }] },
+            };
+            let sender = self.rng.pick(&self.users).clone();
+            self.live.top(&b, TopOp::Exec { sender, m: Msg::Exec { c: d, p, funds: vec![] } });
+        } else if via_sub {
             // a contract acts through a sub-message: the dispatcher is the actor
             if !self.dispatchers.contains(&actor) {
                 actor = self.rng.pick(&self.dispatchers).clone();
@@ -261,6 +331,70 @@ fn fixed() -> Vec<History> {
             Hop::Info { c: d.clone() },
         ],
     });
+    // a contract that is NOT its own admin returns UpdateAdmin(self -> self-chosen) / ClearAdmin / Migrate from its
+    // migrate entry point: the operation is the CONTRACT's, not the migrating admin's: refused; with reply_on
+    // never / success the migration fails, with error / always it is caught and the admin is unchanged
+    let x = classic_address(1, 0);
+    let y = classic_address(1, 1);
+    let mut hops = vec![
+        Hop::Store { creator: None, src: full_src(301) },
+        Hop::Store { creator: None, src: full_src(302) },
+        top(inst(&alice, 1, leaf(&mut n, vec![]), "x", Some(alice.clone()))),
+        top(inst(&alice, 1, leaf(&mut n, vec![]), "y", Some(alice.clone()))),
+    ];
+    for (i, ro) in [ReplyOnS::Never, ReplyOnS::Error, ReplyOnS::Always, ReplyOnS::Success].into_iter().enumerate() {
+        let p = with_sub(&mut n, 30 + i as u64, ro, Msg::UpdateAdmin { c: x.clone(), a: bob.clone() });
+        hops.push(top(ex(&alice, Msg::Migrate { c: x.clone(), new_code: 2, p })));
+        hops.push(Hop::Info { c: x.clone() });
+    }
+    let p = with_sub(&mut n, 40, ReplyOnS::Never, Msg::ClearAdmin { c: x.clone() });
+    hops.push(top(ex(&alice, Msg::Migrate { c: x.clone(), new_code: 1, p })));
+    let p_in = leaf(&mut n, vec![]);
+    let p = with_sub(&mut n, 41, ReplyOnS::Never, Msg::Migrate { c: x.clone(), new_code: 1, p: p_in });
+    hops.push(top(ex(&alice, Msg::Migrate { c: x.clone(), new_code: 2, p })));
+    // ... and on ANOTHER contract administered by the same account
+    let p = with_sub(&mut n, 42, ReplyOnS::Never, Msg::UpdateAdmin { c: y.clone(), a: x.clone() });
+    hops.push(top(ex(&alice, Msg::Migrate { c: x.clone(), new_code: 2, p })));
+    hops.push(Hop::Info { c: x.clone() });
+    hops.push(Hop::Info { c: y.clone() });
+    // the same from sudo, from instantiate and from a reply program
+    let p = with_sub(&mut n, 43, ReplyOnS::Error, Msg::ClearAdmin { c: y.clone() });
+    hops.push(top(TopOp::WasmSudo { c: x.clone(), p }));
+    let p = with_sub(&mut n, 44, ReplyOnS::Never, Msg::UpdateAdmin { c: y.clone(), a: bob.clone() });
+    hops.push(top(inst(&alice, 1, p, "z", Some(alice.clone()))));
+    let node = n.next();
+    let on_ok = with_sub(&mut n, 45, ReplyOnS::Error, Msg::UpdateAdmin { c: y.clone(), a: bob.clone() });
+    let on_err = with_sub(&mut n, 46, ReplyOnS::Never, Msg::ClearAdmin { c: y.clone() });
+    hops.push(top(ex(&bob, Msg::Exec {
+        c: x.clone(),
+        p: Prog { node, acts: vec![], out: Output::Resp { attrs: vec![], events: vec![], data: None, subs: vec![Sub { id: 9, payload: vec![9], ro: ReplyOnS::Always, m: Box::new(Msg::Custom { ok: true, tag: 1 }), on_ok, on_err }] } },
+        funds: vec![],
+    })));
+    hops.push(Hop::Info { c: y.clone() });
+    out.push(History { users: users.clone(), hops });
+    // a contract that IS its own admin does the same: accepted — from execute, and from the migrate entry point
+    // of a migration it requested itself
+    let x = classic_address(1, 0);
+    let mut hops = vec![
+        Hop::Store { creator: None, src: full_src(301) },
+        Hop::Store { creator: None, src: full_src(302) },
+        top(inst(&alice, 1, leaf(&mut n, vec![]), "x", Some(x.clone()))),
+        Hop::Info { c: x.clone() },
+    ];
+    let p_mig = with_sub(&mut n, 50, ReplyOnS::Never, Msg::UpdateAdmin { c: x.clone(), a: x.clone() });
+    let p = with_sub(&mut n, 51, ReplyOnS::Never, Msg::Migrate { c: x.clone(), new_code: 2, p: p_mig });
+    hops.push(top(ex(&bob, Msg::Exec { c: x.clone(), p, funds: vec![] })));
+    hops.push(Hop::Info { c: x.clone() });
+    let p = with_sub(&mut n, 52, ReplyOnS::Success, Msg::Migrate { c: x.clone(), new_code: 1, p: leaf(&mut Nodes(950), vec![]) });
+    hops.push(top(ex(&bob, Msg::Exec { c: x.clone(), p, funds: vec![] })));
+    let p = with_sub(&mut n, 53, ReplyOnS::Always, Msg::UpdateAdmin { c: x.clone(), a: bob.clone() });
+    hops.push(top(ex(&carol, Msg::Exec { c: x.clone(), p, funds: vec![] })));
+    hops.push(Hop::Info { c: x.clone() });
+    // handed over to bob: the contract is no longer its own admin; bob migrates it and the new code tries again
+    let p = with_sub(&mut n, 54, ReplyOnS::Never, Msg::UpdateAdmin { c: x.clone(), a: x.clone() });
+    hops.push(top(ex(&bob, Msg::Migrate { c: x.clone(), new_code: 2, p })));
+    hops.push(Hop::Info { c: x.clone() });
+    out.push(History { users: users.clone(), hops });
     out
 }
 
@@ -276,7 +410,7 @@ fn main() {
         &|rng, thorough| G::new(rng).run(thorough),
         40,
         400,
-        "histories = code table (auto, without migrate entry point, non-contiguous explicit id, auto after the gap, duplicate), six contracts (admin = creator; none; a user other than the creator; a dispatcher contract that is its own creator's; another contract; the contract itself), then 6-20 attempts: target x actor (current admin as reported by the registry, creator, former admins, strangers, a contract acting through a sub-message under every reply mode) x operation (Migrate to the same / another / duplicate / entry-point-less / unknown / zero / non-contiguous code with a clean, failing, malformed or sub-message-dispatching migrate program; UpdateAdmin to users, contracts, itself, an invalid string; ClearAdmin), each framed by ContractInfo / contract_data / dump_wasm_raw observations and followed by execute / sudo calls on the target. 2 fixed histories first (F2 witness + full life cycle; contracts as admins). non-trivial = at least one admin operation accepted and at least one refused",
+        "histories = code table (auto, without migrate entry point, non-contiguous explicit id, auto after the gap, duplicate), six contracts (admin = creator; none; a user other than the creator; a dispatcher contract that is its own creator's; another contract; the contract itself), then 6-20 attempts: target x actor (current admin as reported by the registry, creator, former admins, strangers, a contract acting through a sub-message under every reply mode, dispatched from execute, sudo, instantiate, a reply program, or the MIGRATE entry point of the new code) x operation (Migrate to the same / another / duplicate / entry-point-less / unknown / zero / non-contiguous code with a clean, failing, malformed or sub-message-dispatching migrate program; UpdateAdmin to users, contracts, itself, an invalid string; ClearAdmin), each framed by ContractInfo / contract_data / dump_wasm_raw observations and followed by execute / sudo calls on the target. 4 fixed histories first (F2 witness + full life cycle; contracts as admins; a contract NOT its own admin returning admin operations from migrate / sudo / instantiate / reply under every reply mode; a contract that IS its own admin doing the same). non-trivial = at least one admin operation accepted and at least one refused",
         &|h, obs| {
             let mut acc = false;
             let mut refu = false;
